@@ -186,7 +186,9 @@ fn make_jwk_did() -> (String, String) {
       // moduli of 512 to 4096 bits (the encoded DID of the largest is well beyond a kilobyte)
       let mut n = ctx::bytes(64);
       n.resize([64usize, 256, 384, 512][ctx::choose(4)], 0x5a);
-      serde_json::json!({"kty":"RSA","n": crate::core::b64::encode(n), "e": "AQAB"})
+      // (public exponents as encoders write them: minimal, or with leading zero octets)
+      let e = ["AQAB", "AQAB", "AAEAAQ", "AAAAAQAB", "Aw"][ctx::choose(5)];
+      serde_json::json!({"kty":"RSA","n": crate::core::b64::encode(n), "e": e})
     }
   };
   // optional members: the expanded document must carry exactly the key encoded in the DID, members included
